@@ -62,7 +62,7 @@ int main(int argc, char **argv) {
 	if (argc >= 4 && !strcmp(argv[1], "run")) {
 		const char *jobs = getenv("VERIF_JOBS"); int P = jobs ? atoi(jobs) : 20; if (P < 1) P = 1; if (P > 200) P = 200;
 		const char *to = getenv("VERIF_CHILD_TIMEOUT");
-		run_init(P, to ? atof(to) : 30.0);
+		run_init(P, to ? atof(to) : 120.0);   /* wall-clock limit per child: only loops without any scheduling point need it; generous so that a loaded machine cannot turn a slow batch into a "hang" */
 		const char *dl = getenv("VERIF_DEADLINE"); if (dl) rep_deadline_s = atof(dl);
 		for (check_t *c = checks; c->id; c++) if (!strcasecmp(c->id, argv[2])) {
 			char up[16]; snprintf(up, sizeof up, "%s", argv[2]); for (char *p = up; *p; p++) if (*p >= 'a' && *p <= 'z') *p -= 32;
